@@ -549,7 +549,11 @@ func TestC13(t *testing.T) {
 				[]c13Case{mk("cli", "udp", "", 3)},
 				[]c13Case{mk("cli", "icmp", "", 3)},
 				[]c13Case{mk("cli", "tcp", "sack", 1), mk("cli", "tcp", "syn", 1), mk("helper", "udp", "", 1)},
-				[]c13Case{mk("cli", "tcp", "syn", 3)})
+				[]c13Case{mk("cli", "tcp", "syn", 3)},
+				// SACK runs at once, to the same target and port: while each reads its handshake the capture
+				// handle also delivers the SYN-ACKs of the others
+				[]c13Case{mk("cli", "tcp", "sack", 3)},
+				[]c13Case{mk("cli", "tcp", "sack", 1), mk("helper", "tcp", "sack", 1), mk("cli", "tcp", "prefer_sack", 1)})
 		}
 		groups = append(groups, g)
 	}
